@@ -267,6 +267,42 @@ func C01(c *fw.Ctx) {
 		c.R.States++
 		c.R.Transitions++
 	})
+	// every if / else tree (no braces anywhere) up to 6 ifs: the rendering wraps a then-branch
+	// only where the ladder would otherwise re-attach an else, so both unambiguous and
+	// dangling shapes occur
+	var ifTrees func(budget int, emit func(*model.N, int))
+	leafN := 0
+	ifTrees = func(budget int, emit func(*model.N, int)) {
+		leafN++
+		emit(model.ExprS(model.Id(fmt.Sprintf("s%d", leafN%7))), 0)
+		if budget < 1 {
+			return
+		}
+		ifTrees(budget-1, func(t *model.N, ut int) {
+			emit(model.If(model.Id("c"), t, nil), 1+ut)
+			ifTrees(budget-1-ut, func(e *model.N, ue int) {
+				emit(model.If(model.Id("c"), t.Clone(), e), 1+ut+ue)
+			})
+		})
+		ifTrees(budget-1, func(b *model.N, ub int) {
+			emit(model.While(model.Id("w"), b), 1+ub)
+		})
+	}
+	maxIfs := 5
+	if !c.Quick() {
+		maxIfs = 6
+	}
+	c.Bound("if_tree_max_nodes", maxIfs)
+	ifTrees(maxIfs, func(t *model.N, used int) {
+		if !c.Mine() {
+			return
+		}
+		st := model.FixDangling(t.Clone())
+		src := model.Render([]*model.N{st})
+		treeCase(c, src, []*model.N{st}, false, "if-tree")
+		c.R.States++
+		c.R.Transitions++
+	})
 	if c.Mine() {
 		// else binds to the nearest if: hand-written text, no braces
 		src := model.KwIf + " (a) " + model.KwIf + " (b) x; " + model.KwElse + " y;"
